@@ -352,6 +352,25 @@ theorem dyn_top_valid (cfg : Cfg) (hgap : 0 ≤ cfg.gap) (hs : List Nat) (hlen :
   obtain ⟨s, he, hi, ht⟩ := run_inv_top cfg hgap hs hlen ops init init_inv (Or.inl rfl) ho
   exact ⟨s, he, ht, hi.cur_ok⟩
 
+/-- **The scroll state describes what was drawn** — after any history (gap ≥ 0, items replaced at
+    will), every `Draw` leaves `scroll.top`/`scroll.offset` anchored on the child that covers row 0
+    (together with the gap below it): that child is item `top` and starts `offset` rows above row 0.
+    And the first child never starts below row 0 (no blank rows above the first drawn item). -/
+theorem dyn_anchor (cfg : Cfg) (hgap : 0 ≤ cfg.gap) (hs0 : List Nat) (hlen0 : hs0.length < 2 ^ 63)
+    (ops : List HOp) (ho : ∀ op ∈ ops, HOpOk op) (hs : List Nat) (s : St)
+    (hrun : runH genFacts cfg hs0 init ops = .ok (hs, s))
+    (W H : Nat) (hW : W ≠ 65535) (hH : H ≠ 65535) :
+    ∃ s' cs, draw genFacts cfg hs s W H = .ok (s', cs) ∧
+      (∀ (k : Nat) (c : Child), cs[k]? = some c → c.row ≤ 0 → 0 < c.row + (c.height : Int) + cfg.gap →
+        s'.top = c.idx ∧ s'.offset = - c.row) ∧
+      (∀ f, cs.head? = some f → f.row ≤ 0) := by
+  rw [dyn_repairs_present] at hrun ⊢
+  obtain ⟨hs', s1, he, hi, hl⟩ := runH_inv cfg hgap ops hs0 init hlen0 init_inv ho
+  rw [hrun] at he; cases he
+  obtain ⟨s', cs, hd, _⟩ := draw_inv cfg hgap hs hl s W H hW hH hi
+  exact ⟨s', cs, hd, fun k c hk h1 h2 => draw_anchor cfg hgap hs hl s W H hW hH hi s' cs hd k c hk ⟨h1, h2⟩,
+    fun f hf => draw_first_row cfg hgap hs hl s W H hW hH hi s' cs hd f hf⟩
+
 /-- **NextItem / PrevItem keep the selection on an existing item** — whenever they move the cursor
     (return a command) the new cursor is the index of an item the Builder has. -/
 theorem dyn_next_prev_in_range (hs : List Nat) (s s1 : St) (hcu : s.cursor < 2 ^ 63)
